@@ -236,7 +236,21 @@ def gen_call(rng):
 
 def gen_history(rng, maxlen):
     n = rng.randint(1, maxlen)
-    calls = ["ud %s" % ref(rng) for _ in range(rng.randint(0, 3))]
+    calls = []
+    if rng.random() < 0.25:
+        # derived starting point (only effective when the configuration has INCLUDE_DISALLOWED: allow fails otherwise and
+        # the reload is then a plain XML round trip): disallow some PUs and/or NUMA nodes, reload without the flag
+        c = rng.choice(["-", "~b%d" % rng.randrange(0, 8), "~b%d\\b%d" % (rng.randrange(0, 8), rng.randrange(0, 8)), "~cs%s" % ref(rng)])
+        nd = rng.choice(["-", "~b%d" % rng.randrange(0, 4), "~b%d\\b%d" % (rng.randrange(0, 4), rng.randrange(0, 4)), "b0+b1+b2"])
+        if c == "-" and nd == "-":
+            nd = "~b1"
+        calls += ["allow 4 %s %s" % (c, nd), "reload %d" % rng.choice([0, 0, 0, 1])]
+        for _ in range(rng.randint(1, 3)):
+            bynode = rng.random() < 0.6
+            fl = (8 | rng.choice([0, 16, 16, 18, 22, 2, 4])) if bynode else rng.choice([0, 1, 2, 3, 5, 7])
+            st = rng.choice(["~b%d" % rng.randrange(0, 6), "b0+b2+b3", "b0+b1+b3", "full", "~b%d\\b%d" % (rng.randrange(0, 6), rng.randrange(0, 6))])
+            calls.append("restrict %s %d" % (st, fl))
+    calls += ["ud %s" % ref(rng) for _ in range(rng.randint(0, 3))]
     if rng.random() < 0.3:
         # asymmetric starting point: an initial restrict that removes one object's CPUs
         calls.append("restrict ~cs%s %d" % (ref(rng), rng.choice([0, 1, 2, 6])))
@@ -329,6 +343,14 @@ DIRECTED += [
      ["misc #t15.0 m", "misc #t15.3 m", "misc #t14.2 n", "misc #t19.1 nested", "allow 1 - -", "restrict ~b0 6"]),
     ("misc-under-io", ["filter io 0", "filter 19 0", "flags 0", "src xml " + IO_XML],
      ["misc #t16.0 b", "misc #t17.1 p", "misc #t19.0 nested", "restrict b0+b1 6", "misc #t17.0 p2"]),
+    # initial topology = load with INCLUDE_DISALLOWED, allow(CUSTOM), export XML, reload without the flag: disallowed PUs and
+    # NUMA nodes are dropped at load (cpuset != complete_cpuset, nodeset != complete_nodeset on the survivors)
+    ("reload-disallowed-node-then-restrict-bynodeset", ["filter 19 0", "flags 1", "src synthetic pack:4 numa:1 pu:2"],
+     ["allow 4 - b0+b1+b2", "reload 0", "restrict b0+b2+b3 26"]),
+    ("reload-disallowed-pus-and-node-then-restricts", ["flags 1", "src synthetic pack:2 [numa] core:2 [numa] pu:2"],
+     ["allow 4 ~b2\\b3 ~b1", "reload 0", "restrict ~b0 24", "restrict b0+b1+b2+b4+b5 1", "restrict full 16"]),
+    ("reload-disallowed-then-group-misc", ["filter 19 0", "flags 1", "src synthetic pack:4 numa:1 pu:2"],
+     ["allow 4 ~b6 b0+b1+b3", "reload 0", "group cs=b0+b1+b2+b3", "misc #t14.1 m", "restrict b0+b1+b3 24", "restrict b0+b1+b2+b3 0"]),
     ("dontmerge-mixed-group-level", ["flags 0", "src synthetic pack:1 core:4 pu:1"],
      ["group cs=b0+b1", "group cs=b2+b3 dm=1", "restrict b0+b2 0"]),
     ("dontmerge-mixed-group-level-reversed", ["flags 0", "src synthetic pack:1 core:6 pu:1"],
